@@ -216,3 +216,86 @@ package yang
 //@   loop 1
 //@     modifies elems(r)
 //@     invariant forall j int :: 0 <= j && j < _k ==> validR(r[j]) && r[j].Min.FractionDigits == fracDigRequired && r[j].Max.FractionDigits == fracDigRequired
+
+// ---------------------------------------------------------------------------
+// C14: enum values and bit positions. Representation invariant of EnumType:
+// the two maps are views of one assignment, every value lies in [min, max],
+// `last` is the highest value assigned so far (-1 while nothing is assigned).
+//
+//@ pred enumInv(e *EnumType) = e != nil && e.ToInt != nil && e.ToString != nil
+//@     && e.min <= 0 && 0 <= e.max && e.max <= 4294967295 && e.min >= -2147483648
+//@     && (forall n string :: has(e.ToInt, n) ==> e.min <= e.ToInt[n] && e.ToInt[n] <= e.max && has(e.ToString, e.ToInt[n]))
+//@     && (forall v int64 :: has(e.ToString, v) ==> v <= e.last && e.min <= v && v <= e.max && has(e.ToInt, e.ToString[v]) && e.ToInt[e.ToString[v]] == v)
+//@     && (e.unique ==> (forall n string :: has(e.ToInt, n) ==> e.ToString[e.ToInt[n]] == n))
+//@     && (len(e.ToInt) == 0 ==> e.last == -1 && len(e.ToString) == 0)
+//@     && (len(e.ToInt) > 0 ==> has(e.ToString, e.last))
+//
+//@ func NewEnumType props C14
+//@   ensures  enumInv(result) && fresh(result) && result.unique && result.min == -2147483648 && result.max == 2147483647
+//@   ensures  len(result.ToInt) == 0
+//@   modifies nothing
+//@   safe
+//
+//@ func NewBitfield props C14
+//@   ensures  enumInv(result) && fresh(result) && !result.unique && result.min == 0 && result.max == 4294967295
+//@   ensures  len(result.ToInt) == 0
+//@   modifies nothing
+//@   safe
+//
+//@ func (*EnumType).Set props C14
+//@   requires enumInv(e)
+//@   ensures  enumInv(e)
+//@   ensures  (result == nil) == (!old(has(e.ToInt, name)) && e.min <= value && value <= e.max && (e.unique ==> !old(has(e.ToString, value))))
+//@   ensures  result == nil ==> has(e.ToInt, name) && e.ToInt[name] == value && e.ToString[value] == name
+//@   ensures  result == nil ==> (forall n string :: n != name ==> has(e.ToInt, n) == old(has(e.ToInt, n)) && e.ToInt[n] == old(e.ToInt[n]))
+//@   ensures  result == nil ==> e.last == ((old(len(e.ToInt)) == 0 || value >= old(e.last)) ? value : old(e.last))
+//@   ensures  result != nil ==> e.last == old(e.last) && (forall n string :: has(e.ToInt, n) == old(has(e.ToInt, n)) && e.ToInt[n] == old(e.ToInt[n]))
+//@   ensures  result != nil ==> (forall v int64 :: has(e.ToString, v) == old(has(e.ToString, v)) && e.ToString[v] == old(e.ToString[v]))
+//@   ensures  e.min == old(e.min) && e.max == old(e.max) && e.unique == old(e.unique) && e.ToInt == old(e.ToInt) && e.ToString == old(e.ToString)
+//@   modifies e.last, contents(e.ToInt), contents(e.ToString)
+//@   safe
+//
+//@ func (*EnumType).SetNext props C14
+//@   requires enumInv(e)
+//@   ensures  enumInv(e)
+//@   ensures  result == nil ==> !old(has(e.ToInt, name)) && has(e.ToInt, name) && e.ToInt[name] == (old(len(e.ToInt)) == 0 ? 0 : old(e.last) + 1)
+//@   ensures  old(len(e.ToInt)) > 0 && old(e.last) + 1 > e.max ==> result != nil
+//@   ensures  (old(len(e.ToInt)) == 0 || old(e.last) + 1 <= e.max) && !old(has(e.ToInt, name)) ==> result == nil
+//@   ensures  result == nil ==> (forall n string :: n != name ==> has(e.ToInt, n) == old(has(e.ToInt, n)) && e.ToInt[n] == old(e.ToInt[n]))
+//@   ensures  result != nil ==> e.last == old(e.last) && (forall n string :: has(e.ToInt, n) == old(has(e.ToInt, n)) && e.ToInt[n] == old(e.ToInt[n]))
+//@   ensures  e.min == old(e.min) && e.max == old(e.max) && e.unique == old(e.unique) && e.ToInt == old(e.ToInt) && e.ToString == old(e.ToString)
+//@   modifies e.last, contents(e.ToInt), contents(e.ToString)
+//@   safe
+//@   nowrap
+//
+//@ func (*EnumType).Name props C14
+//@   requires e != nil
+//@   ensures  result == e.ToString[value]
+//@   pure
+//@   safe
+//
+//@ func (*EnumType).Value props C14
+//@   requires e != nil
+//@   ensures  result == e.ToInt[name]
+//@   pure
+//@   safe
+//
+//@ func (*EnumType).IsDefined props C14
+//@   requires e != nil
+//@   ensures  result == has(e.ToInt, name)
+//@   pure
+//@   safe
+//
+// The `set` closure of Type.resolve: a member without a value/position takes
+// the next value, an explicit one is parsed and must fit int64; an error
+// leaves the enumeration untouched.
+//@ func (*Type).resolve$1 props C14
+//@   requires enumInv(e)
+//@   ensures  enumInv(e)
+//@   ensures  value == nil && result == nil ==> !old(has(e.ToInt, name)) && e.ToInt[name] == (old(len(e.ToInt)) == 0 ? 0 : old(e.last) + 1)
+//@   ensures  value == nil && old(len(e.ToInt)) > 0 && old(e.last) + 1 > e.max ==> result != nil
+//@   ensures  result == nil ==> has(e.ToInt, name) && !old(has(e.ToInt, name))
+//@   ensures  result == nil ==> (forall n string :: n != name ==> has(e.ToInt, n) == old(has(e.ToInt, n)) && e.ToInt[n] == old(e.ToInt[n]))
+//@   ensures  result != nil ==> e.last == old(e.last) && (forall n string :: has(e.ToInt, n) == old(has(e.ToInt, n)) && e.ToInt[n] == old(e.ToInt[n]))
+//@   modifies e.last, contents(e.ToInt), contents(e.ToString)
+//@   safe
